@@ -1,7 +1,9 @@
 #!/bin/bash
 # For every seeded/<id>: the demonstration passes on a scratch copy of /repo and fails once the patch is applied.
 for d in /verif/seeded/S*; do
-  id=$(basename $d); t=$(mktemp -d /tmp/mqtt-seed-XXXXXX)
+  id=$(basename $d)
+  if grep -q '"neutralised": true' $d/meta.json; then echo "$id neutralised by a later repair (skipped)"; continue; fi
+  t=$(mktemp -d /tmp/mqtt-seed-XXXXXX)
   rsync -a --exclude .git /repo/ $t/
   (cd $t && PYTHONPATH=$t/src timeout 120 /venv/bin/python $d/demo.py >/dev/null 2>&1); a=$?
   if ! patch -p1 -s -d $t -i $d/patch.diff >/dev/null 2>&1; then echo "$id patch does not apply"; rm -rf $t; continue; fi
